@@ -15,8 +15,10 @@
 package backend
 
 import (
+	"bytes"
 	"encoding/binary"
 	"fmt"
+	"strings"
 	"time"
 
 	"k8s.io/klog/v2"
@@ -48,7 +50,19 @@ func (c *Config) getScannerConfig() scanner.Config {
 		CompactKey: getCompactKey(c.Prefix),
 		Tombstone:  tombStoneBytes,
 		TTL:        time.Second * time.Duration(eventsTTL),
+
+		EventsPrefix: c.getEventsPrefix(),
 	}
+}
+
+// getEventsPrefix returns the directory of Kubernetes Event objects, which is directly under the prefix
+func (c *Config) getEventsPrefix() []byte {
+	return append([]byte(strings.TrimSuffix(c.Prefix, "/")), events...)
+}
+
+// isEventKey checks if the key is a Kubernetes Event object, which should be written with ttl
+func (c *Config) isEventKey(key []byte) bool {
+	return bytes.HasPrefix(key, c.getEventsPrefix())
 }
 
 func (c *Config) complete() {
